@@ -123,6 +123,52 @@ func runCommitteeSource(a *Analyzer, r *Results) {
 			r.Undecided = append(r.Undecided, shortName(f)+": no return handing back a committee (K6.members)")
 		}
 	}
+	// a function that hands the results of an asker straight back (`return req.askUntilAnswered(ctx)`) is an asker too
+	for changed := true; changed; {
+		changed = false
+		for _, f := range a.P.Funcs {
+			if asker[f] || f.Parent() != nil {
+				continue
+			}
+			fwd, any := true, false
+			for _, b := range f.Blocks {
+				ret, ok := b.Instrs[len(b.Instrs)-1].(*ssa.Return)
+				if !ok {
+					continue
+				}
+				for _, rv := range ret.Results {
+					if !isCommitteeSlice(rv.Type()) {
+						continue
+					}
+					if k, isK := rv.(*ssa.Const); isK && k.IsNil() {
+						continue
+					}
+					any = true
+					ex, isEx := rv.(*ssa.Extract)
+					if !isEx {
+						fwd = false
+						continue
+					}
+					call, isCall := ex.Tuple.(*ssa.Call)
+					if !isCall || call.Call.StaticCallee() == nil || !asker[call.Call.StaticCallee()] {
+						fwd = false
+						continue
+					}
+					// every result of this return comes from that same call, position by position
+					for i, other := range ret.Results {
+						oe, isOE := other.(*ssa.Extract)
+						if !isOE || oe.Tuple != ex.Tuple || oe.Index != i {
+							fwd = false
+						}
+					}
+				}
+			}
+			if any && fwd {
+				asker[f] = true
+				changed = true
+			}
+		}
+	}
 	// (a) what is handed to the term constructor is that answer, untouched
 	n := 0
 	for _, f := range a.P.Funcs {
